@@ -96,6 +96,8 @@ type vfRStream struct {
 	reset  bool
 	closed bool
 	served int
+	sent, read     int // bytes the remote sent / the client has read
+	oversizeBodyAt int // offset in the sent bytes where the body of an oversize frame starts (0 = none)
 }
 
 func (s *vfRStream) Reset() error {
@@ -119,6 +121,7 @@ func (s *vfRStream) SetReadDeadline(time.Time) error  { return nil }
 func (s *vfRStream) SetWriteDeadline(time.Time) error { return nil }
 
 func (s *vfRStream) deliver(b []byte) {
+	s.sent += len(b)
 	s.outbox = append(s.outbox, b...)
 	select {
 	case s.avail <- struct{}{}:
@@ -168,7 +171,7 @@ func (s *vfRStream) Write(p []byte) (int, error) {
 				beh = s.h.simpleBad
 			}
 		} else {
-			beh = vfChoose("remote.behaviour", 4)
+			beh = vfChoose("remote.behaviour", 5)
 		}
 		switch beh {
 		case 0:
@@ -178,6 +181,17 @@ func (s *vfRStream) Write(p []byte) (int, error) {
 		case 2: // silence
 		case 3: // the remote resets the stream
 			_ = s.Reset()
+		case 4: // the remote announces a frame one byte above the transport limit and starts sending it
+			var hdr []byte
+			for n := uint64(network.MessageSizeMax) + 1; ; n >>= 7 {
+				if n < 0x80 {
+					hdr = append(hdr, byte(n))
+					break
+				}
+				hdr = append(hdr, byte(n)|0x80)
+			}
+			s.oversizeBodyAt = s.sent + len(hdr)
+			s.deliver(append(hdr, make([]byte, 64)...))
 		}
 	}
 	return len(p), nil
@@ -188,6 +202,7 @@ func (s *vfRStream) Read(p []byte) (int, error) {
 		if len(s.outbox) > 0 {
 			n := copy(p, s.outbox)
 			s.outbox = s.outbox[n:]
+			s.read += n
 			return n, nil
 		}
 		if s.reset {
@@ -262,6 +277,11 @@ func VfRequestReplyMatching() {
 		req := pb.NewMessage(pb.Message_FIND_NODE, []byte(id), 0)
 		resp, err := m.SendRequest(ctx, p, req)
 		cancel()
+		for _, s := range h.streams {
+			if s.oversizeBodyAt > 0 {
+				vfAssert(s.read <= s.oversizeBodyAt, "reply/a-frame-announced-above-the-transport-limit-is-refused-before-its-body-is-read")
+			}
+		}
 		if err == nil {
 			vfAssert(resp != nil && string(resp.GetKey()) == id, "reply/is-the-reply-to-that-very-request")
 		} else {
